@@ -491,6 +491,95 @@ def rule_dropper(ctx, R):
                     st.append(tt["u"])
     R.check(not bad, "C04-R3", "DataPtr::drop_to|unwind", "a panicking Drop does not lead to further cell drops in this loop",
             "after a panic in drop_in_place another drop_in_place is reachable on the unwind path (double drop)", where_of(fn), fn=fn.key)
+    _unwind_guards(ctx, R, fn)
+
+
+def bare_ty(t):
+    """type or path string without any generic argument list (`A<T>::f::G<T>` -> `A::f::G`)"""
+    out, d = [], 0
+    for ch in t:
+        if ch == "<":
+            d += 1
+        elif ch == ">":
+            d -= 1
+        elif d == 0:
+            out.append(ch)
+    return "".join(out).replace("::::", "::")
+
+
+def cell_dropping_adts(g):
+    """gecs-local types whose own Drop impl (transitively, depth 4) drops cells in place: unwinding continuation guards"""
+    out = {}
+    for name0, ad in g.adts.items():
+        if not ad.get("has_dtor"):
+            continue
+        name = bare_ty(name0)
+        for path, f in g.fns.items():
+            if not (path.endswith("as std::ops::Drop>::drop") and path.startswith("<") and bare_ty(path[1:].split(" as std::ops::Drop>")[0]) == name):
+                continue
+            seen, st, hit = set(), [(f, 0)], False
+            while st and not hit:
+                h, d = st.pop()
+                if h.key in seen:
+                    continue
+                seen.add(h.key)
+                for b in h.blocks:
+                    t = b["t"]
+                    if t["k"] != "call" or t["f"].get("indirect"):
+                        continue
+                    cp = cname(t["f"]["path"])
+                    if cp.endswith("drop_in_place") or cp.endswith("assume_init_drop") or cp.endswith("DataPtr::drop_to"):
+                        hit = True
+                        break
+                    c2 = g.lookup(t["f"])
+                    if c2 is not None and d < 4:
+                        st.append((c2, d + 1))
+            if hit:
+                out[name] = f
+    return out
+
+
+def _unwind_guards(ctx, R, fn):
+    """C04-R3 / C10-R8: if unwinding out of a panicking cell drop runs a guard that goes on dropping cells (the Vec idiom), the guard's
+    cursor must have been moved past the cell *before* that cell's drop is called (a store into the guard that lies inside the loop and
+    dominates the call).  A cursor that is only written after the call returns still designates the panicking cell at the unwind edge:
+    that cell is dropped twice."""
+    from .cfg import Cfg
+    from .facts import strip_generics
+    g = ctx.gecs
+    guards = cell_dropping_adts(g)
+    cfg = Cfg(fn)
+    dom = cfg.dominators()
+    n_guard = 0
+    for bi, b in enumerate(fn.blocks):
+        t = b["t"]
+        if not (t["k"] == "call" and not t["f"].get("indirect") and t["f"]["path"].endswith("ptr::drop_in_place") and isinstance(t.get("u"), int)):
+            continue
+        seen, st = set(), [t["u"]]
+        while st:
+            x = st.pop()
+            if x in seen:
+                continue
+            seen.add(x)
+            tt = fn.blocks[x]["t"]
+            if tt["k"] == "drop" and bare_ty(tt["ty"]) in guards and not tt["p"]["p"]:
+                n_guard += 1
+                gl = tt["p"]["l"]
+                headers = [h for h in cfg.loop_headers() if bi in cfg.loop_body(h)]
+                stores = [i for i, bb in enumerate(fn.blocks) if not bb["cleanup"] and any(s_["k"] == "assign" and s_["p"]["l"] == gl and s_["p"]["p"] for s_ in bb["st"])]
+                good = [i for i in stores if i in dom.get(bi, ()) and any(h in dom.get(i, ()) for h in headers)]
+                # a store in the call's own block precedes the terminator
+                R.check(bool(good), "C10-R8", "%s|unwind-guard-cursor" % fn.short(),
+                        "the continuation guard %s is advanced past the cell before that cell's drop is called" % strip_generics(tt["ty"]),
+                        "unwinding out of a panicking cell drop runs the guard %s, which goes on dropping cells, but no store into the guard inside the loop dominates the drop_in_place call: at the unwind edge its cursor still designates the panicking cell, which is dropped a second time" % strip_generics(tt["ty"]),
+                        where_of(fn, t["s"]), fn=fn.key)
+            if isinstance(tt.get("t"), int):
+                st.append(tt["t"])
+            if tt["k"] == "switch":
+                st.extend([bb for _, bb in tt["ts"]] + [tt["o"]])
+            if isinstance(tt.get("u"), int):
+                st.append(tt["u"])
+    R.ok("C10-R8", "%s|unwind-guards-scanned" % fn.short(), "%d continuation guard(s) on the unwind path of the cell drop" % n_guard, fn=fn.key)
 
 
 # ----------------------------------------------------------------------------------
@@ -1066,8 +1155,32 @@ def rule_forbidden_calls(ctx, R):
 _WRAPPED = _re.compile(r"(?:std::cell::Ref(?:Mut)?<'_, [^<>]*(?:<[^<>]*>)?[^<>]*>|entity::Entity(?:Direct)?<[^<>]*>|std::marker::PhantomData<[^<>]*(?:<[^<>]*>)?[^<>]*>)")
 
 
-def component_bearing(ty, generics):
-    """does a value of type `ty` (as printed by rustc) own a user component value?  Guards (Ref/RefMut) and handles do not."""
+_NONOWNING = _re.compile(r"(?:\*(?:mut|const) |&(?:'[a-z_]+ )?(?:mut )?|std::ptr::NonNull<)")
+
+
+def component_bearing(ty, generics, adts=None, depth=0):
+    """does a value of type `ty` (as printed by rustc) own a user component value?  Guards (Ref/RefMut), handles, raw pointers and
+    references do not; a gecs-local struct does iff one of its fields does (judged on the declared field types)."""
+    from .facts import strip_generics as _sg
+    if adts is not None and depth < 3:
+        head = bare_ty(ty)
+        ad = adts.get(head)
+        if ad is None:
+            for k_, v_ in adts.items():
+                if "<" in k_ and bare_ty(k_) == head:
+                    ad = v_
+                    break
+        if ad is not None and "<" in ty:
+            for v in ad.get("variants", []):
+                for fld in v.get("fields", []):
+                    fty = fld["ty"]
+                    if _NONOWNING.match(fty) or fty.startswith("std::marker::PhantomData"):
+                        continue
+                    if component_bearing(fty, ad.get("params") or [], adts, depth + 1):
+                        return True
+            return False
+    if _NONOWNING.match(ty):
+        return False
     t = ty
     prev = None
     while prev != t:
@@ -1096,7 +1209,7 @@ def rule_implicit_drops(ctx, R):
             t = b["t"]
             if t["k"] != "drop" or not t.get("needs_drop", True):
                 continue
-            if not component_bearing(t["ty"], gens):
+            if not component_bearing(t["ty"], gens, g.adts):
                 continue
             n += 1
             proj = t["p"]["p"]
